@@ -30,7 +30,7 @@ static const unsigned CAPS_FULL = CAPS_BASIC | CAP(EXTRACT) | CAP(GET);
 static const unsigned CAPS_NOGC = CAP(INSERT) | CAP(CONTAINS) | CAP(FIND) | CAP(UPDATE) | CAP(UPSERT_NOINS);
 
 // ---- hashing knobs (stateless functor types read a per-run global set from the program's knobs)
-static int g_hash_mode;   // 0 identity, 1 constant, 2 one bit, 3 multiplicative, 4 shared-prefix (Feldman)
+extern int g_hash_mode;   // (defined once in harness/core.cpp) 0 identity, 1 constant, 2 one bit, 3 multiplicative, 4 shared-prefix (Feldman)
 inline size_t mkhash(long k) {
     switch (g_hash_mode) { case 1: return 7; case 2: return (size_t)(k & 1); case 3: return (size_t)k * 2654435761u; case 4: return (size_t)k * 0x0101010101010101ULL; default: return (size_t)k; }
 }
@@ -97,21 +97,34 @@ typedef cds::urcu::gc<cds::urcu::signal_buffered<>> RCU_SHB;
 
 // extract / get under the different schemes
 template <class GC> struct Access {     // HP / DHP: guarded_ptr
-    template <class S> static R extract(S& s, long key) { R r; auto gp = s.extract(key); if (gp) { r.ok = true; r.inst = inst_of(*gp); r.key = key_of(*gp); } return r; }
+    template <class S> static R extract(S& s, long key, bool = false) { R r; auto gp = s.extract(key); if (gp) { r.ok = true; r.inst = inst_of(*gp); r.key = key_of(*gp); } return r; }
     template <class S> static R get(S& s, long key) { R r; auto gp = s.get(key); if (gp) { r.ok = true; dsim::point(dsim::K_USER); r.inst = inst_of(*gp); r.key = key_of(*gp); } return r; }
     template <class S> static R extract_min(S& s) { R r; auto gp = s.extract_min(); if (gp) { r.ok = true; r.inst = inst_of(*gp); r.key = key_of(*gp); } return r; }
     template <class S> static R extract_max(S& s) { R r; auto gp = s.extract_max(); if (gp) { r.ok = true; r.inst = inst_of(*gp); r.key = key_of(*gp); } return r; }
 };
 template <class RCU> struct Access<cds::urcu::gc<RCU>> {   // RCU: exempt_ptr outside the lock, raw pointer inside it
-    template <class S> static R extract(S& s, long key) { R r; auto xp = s.extract(key); if (xp) { r.ok = true; r.inst = inst_of(*xp); r.key = key_of(*xp); } xp.release(); return r; }
-    template <class S> static R get(S& s, long key) { R r; { typename S::rcu_lock l; auto p = s.get(key); if (p) { r.ok = true; dsim::point(dsim::K_USER); r.inst = inst_of(*p); r.key = key_of(*p); } } return r; }
+    // documented protocol: LazyList-based RCU containers require the caller to hold the RCU lock around extract(); all others forbid it
+    template <class S> static R extract(S& s, long key, bool locked = false) {
+        R r; typename S::exempt_ptr xp;
+        if (locked) { typename S::rcu_lock l; xp = s.extract(key); } else xp = s.extract(key);
+        if (xp) { r.ok = true; r.inst = inst_of(*xp); r.key = key_of(*xp); } xp.release(); return r;
+    }
+    // get(): called and dereferenced under the RCU lock; a raw_ptr result is released outside the lock (it may carry a chain of
+    // unlinked nodes whose disposal can synchronise), a plain pointer result needs no release
+    template <class P> static void release_outside(P*&) {}
+    template <class P> static auto release_outside(P& p) -> decltype((void)p.release()) { p.release(); }
+    template <class S> static R get(S& s, long key) {
+        R r; decltype(s.get(key)) p = decltype(s.get(key))();
+        { typename S::rcu_lock l; p = s.get(key); if (p) { r.ok = true; dsim::point(dsim::K_USER); r.inst = inst_of(*p); r.key = key_of(*p); } }
+        release_outside(p); return r;
+    }
     template <class S> static R extract_min(S& s) { R r; auto xp = s.extract_min(); if (xp) { r.ok = true; r.inst = inst_of(*xp); r.key = key_of(*xp); } xp.release(); return r; }
     template <class S> static R extract_max(S& s) { R r; auto xp = s.extract_max(); if (xp) { r.ok = true; r.inst = inst_of(*xp); r.key = key_of(*xp); } xp.release(); return r; }
 };
 
 // ---- generic adapter over the "set" API (value_type = Item)
-template <unsigned Caps, bool UpdateReplaces = false, bool Ordered = true, bool HasIter = true, bool HasSize = true>
-struct Cfg { static const unsigned caps = Caps; static const bool update_replaces = UpdateReplaces, ordered = Ordered, has_iter = HasIter, has_size = HasSize; };
+template <unsigned Caps, bool UpdateReplaces = false, bool Ordered = true, bool HasIter = true, bool HasSize = true, bool RcuExtractLocked = false>
+struct Cfg { static const unsigned caps = Caps; static const bool update_replaces = UpdateReplaces, ordered = Ordered, has_iter = HasIter, has_size = HasSize, rcu_extract_locked = RcuExtractLocked; };
 
 template <class C> auto iter_all(C& c, std::vector<long>& out, int) -> decltype((void)c.begin()) { for (auto it = c.begin(); it != c.end(); ++it) out.push_back(key_of(*it)); }
 template <class C> void iter_all(C&, std::vector<long>&, long) {}
@@ -135,7 +148,7 @@ struct SetA {
     R erase(long key, int form) { return erase_(key, form, has<ERASE>()); }
     R erase_(long key, int form, yes) { R r; if (form == 1) { r.ok = s->erase(key, EraseF{&r}); if ((r.ok && r.calls != 1) || (!r.ok && r.calls)) r.calls = -100; } else r.ok = s->erase(key); return r; }
     R erase_(long, int, no) { return R(); }
-    R extract_(long key, yes) { return Access<GC>::extract(*s, key); }
+    R extract_(long key, yes) { return Access<GC>::extract(*s, key, CFG::rcu_extract_locked); }
     R extract_(long, no) { return R(); }
     R get_(long key, yes) { return Access<GC>::get(*s, key); }
     R get_(long, no) { return R(); }
@@ -173,7 +186,7 @@ struct MapA {
     R erase(long key, int form) { return erase_(key, form, has<ERASE>()); }
     R erase_(long key, int form, yes) { R r; if (form == 1) { r.ok = s->erase(key, EraseF{&r}); if ((r.ok && r.calls != 1) || (!r.ok && r.calls)) r.calls = -100; } else r.ok = s->erase(key); return r; }
     R erase_(long, int, no) { return R(); }
-    R extract_(long key, yes) { return Access<GC>::extract(*s, key); }
+    R extract_(long key, yes) { return Access<GC>::extract(*s, key, CFG::rcu_extract_locked); }
     R extract_(long, no) { return R(); }
     R get_(long key, yes) { return Access<GC>::get(*s, key); }
     R get_(long, no) { return R(); }
@@ -213,18 +226,24 @@ inline int pick_kind(Rng& r, unsigned caps, int profile) {
     for (int k = 0; k < NKIND; k++) if (caps & CAP(k)) { if (x < w[profile][k]) return k; x -= w[profile][k]; }
     return CONTAINS;
 }
-inline void gen_program(Rng& r, Program& p, int tier, const GenCfg& g) {
-    int nth = r.range(2, tier ? g.max_threads_thorough : g.max_threads_quick);
+inline void gen_program(Rng& r, Program& p, int tier, const GenCfg& g0) {
+    GenCfg g = g0; const std::string& prop = current_prop();
+    bool c17 = prop == "C17", c18 = prop == "C18", c20 = prop == "C20";
+    int lo_threads = 2, total_cap = 14;
+    if (c17) { g.caps &= (CAP(INSERT) | CAP(UPDATE) | CAP(CONTAINS) | CAP(FIND) | CAP(ERASE)); g.nkeys_hot = 8; g.nkeys_cold = 0; g.max_ops = 7; lo_threads = 1; g.max_threads_quick = 3; total_cap = 16; }
+    if (c18) { g.max_ops = 8; g.max_threads_quick = 4; g.nkeys_hot = 6; g.nkeys_cold = 2; total_cap = 24; }
+    if (c20) { lo_threads = 1; g.max_threads_quick = g.max_threads_thorough = 1; g.max_ops = 36; g.nkeys_hot = 6; g.nkeys_cold = 6; total_cap = 36; }
+    int nth = r.range(lo_threads, tier ? g.max_threads_thorough : g.max_threads_quick);
     int hot = r.range(2, g.nkeys_hot), cold = r.below(g.nkeys_cold + 1);
-    p.set("keys", hot + cold); p.set("prefill_mask", r.below(1 << (hot + cold)));
-    p.set("hash_mode", g.hash_modes ? r.below(g.hash_modes) : 0);
+    p.set("keys", hot + cold); p.set("prefill_mask", c17 ? r.below(4) : r.below(1 << (hot + cold)));
+    p.set("hash_mode", g.hash_modes ? (c17 ? r.pick({1, 1, 2, 2, 0, 3}) % g.hash_modes : r.below(g.hash_modes)) : 0);
     smr_knobs(r, p, nth, g.min_hazards);
     p.threads.resize(nth);
     int total = 0;
     for (int t = 0; t < nth; t++) {
         if (t > 0 && g.readers_may_start_late && r.chance(120)) p.threads[t].start_after = r.below(t);
-        int nops = r.range(1, g.max_ops), profile = r.below(4);
-        for (int k = 0; k < nops && total < 14; k++, total++) {
+        int nops = c20 ? r.range(8, g.max_ops) : r.range(1, g.max_ops), profile = c17 ? 1 : r.below(4);
+        for (int k = 0; k < nops && total < total_cap; k++, total++) {
             int kind = pick_kind(r, g.caps, profile);
             long key = 1 + (r.chance(800) ? r.below(hot) : r.below(hot + cold));
             int form = kind == INSERT ? r.below(g.insert_forms) : kind == ERASE ? r.below(g.erase_forms) : 0;
@@ -331,7 +350,7 @@ template <class A> void check(Ctx& ctx) {
         }
     }
 }
-inline void tune_default(dsim::Params& p, Rng& r, const Program&, const std::string&) { p.soft_cap = 200000; p.hard_cap = 400000; p.f6_permille = r.pick({0, 0, 10}); p.f7_maxdelay = r.pick({0, 0, 50}); }
+inline void tune_default(dsim::Params& p, Rng& r, const Program&, const std::string& prop) { p.soft_cap = 200000; p.hard_cap = 400000; p.f6_permille = r.pick({0, 0, 10}); p.f7_maxdelay = r.pick({0, 0, 50}); if (prop == "C20") p.f1_permille = r.pick({0, 20, 100, 200}); }
 
 } // namespace smc
 
